@@ -372,6 +372,10 @@ class Case:
         pairs += [(1, [('S', [TH, TH, TBL])], [('S', [TH, TBL])]), (1, [('S', [TH, TBL, TBL])], [('S', [TH, TH, TBL])]),
                   (1, [('P', [TBL, TBL])], [('P', [TBL])]), (1, [('P', [TH, TBL, TBL])], [('P', [TBL, TH])]),
                   (2, [('S', [TH, TH]), TBL], [('S', [TH]), TBL])]
+        if n >= 3 and cfg.get('loci', 1) == 1:
+            # user-defined rewards produced by one factory
+            pairs += [(1, [('custom', 2)], [('custom', 3)]), (2, [('custom', 2), ('custom', 3)], [('custom', 3), ('custom', 3)]),
+                      (1, [('P', [('custom', 2), TH])], [('P', [('custom', 3), TH])])]
         if n >= 3:
             pairs += [(1, [('lin', 2)], [('lin', 3)]), (2, [('lin', 2), ('lin', 3)], [('lin', 3), ('lin', 3)]),
                       (1, [('S', [('lin', 2), TH])], [('S', [('lin', 3), TH])])]
